@@ -66,6 +66,9 @@ pub enum DSrc {
     Ghosts { owned: i64, by_ref: i64, reads: Option<usize> },
     /// D-only member nobody mentions (into_existing must leave it alone; Into gets it from ..update)
     Unmentioned,
+    /// receives S field `field` in conversions of one ownership; in the other (`ghost_owned_side`) the field is a
+    /// ghost and the member is supplied by #[ghosts_owned] / #[ghosts_ref]
+    FromSOrGhosts { field: usize, ghost_owned_side: bool, supply: i64 },
 }
 
 #[derive(Clone, Debug)]
@@ -80,6 +83,10 @@ pub struct DMember {
 pub enum Role {
     Mapped { d: usize, from: ExprT, into: ExprT, cast: bool, at_spelling: bool },
     Ghost { owned: Option<i64>, by_ref: Option<i64> },
+    /// `#[ghost_owned({c})]` alone (owned_side = true) or `#[ghost_ref({c})]` alone: a ghost for the conversions of one
+    /// ownership only; the other ownership maps the member plainly to counterpart member `d`, which for the ghost
+    /// ownership is supplied by #[ghosts_owned] / #[ghosts_ref] (value `supply`)
+    GhostFor { owned_side: bool, default: i64, d: usize, supply: i64 },
 }
 
 #[derive(Clone, Debug)]
@@ -314,6 +321,23 @@ fn gen_cp(t: &mut Tape, plan: &mut StructPlan, ci: usize, ncp: usize) -> CpPlan 
             members.push(DMember { name: dname, ty, src });
         }
     }
+    if matches!(form, "named->named" | "named->named{}") && t.chance(1, 3) {
+        let cands: Vec<usize> = (0..nf)
+            .filter(|i| match &roles[*i] {
+                Role::Mapped { d, from, into, cast, .. } => from.is_id() && into.is_id() && !*cast && members[*d].name == plan.fields[*i].name && plan.fields[*i].ty == "i64",
+                _ => false,
+            })
+            .collect();
+        if !cands.is_empty() {
+            let i = *t.pick(&cands);
+            if let Role::Mapped { d, .. } = roles[i].clone() {
+                let owned_side = t.coin();
+                let supply = 4000 + t.below(900) as i64;
+                roles[i] = Role::GhostFor { owned_side, default: 100 + t.below(800) as i64, d, supply };
+                members[d].src = DSrc::FromSOrGhosts { field: i, ghost_owned_side: owned_side, supply };
+            }
+        }
+    }
     if shape == DShape::BareTuple && members.is_empty() {
         // `()` is not a useful bare tuple: give it one ghost member
         members.push(DMember { name: "0".into(), ty: "i64", src: DSrc::Ghosts { owned: 2001, by_ref: 2001, reads: None } });
@@ -389,7 +413,7 @@ fn s_lit(plan: &StructPlan, vals: &[String]) -> String {
 // ------------------------------------------------------------------------------------------------
 
 /// Member instructions (without dedication) for S field `i` under counterpart `cp`.
-fn field_instrs(t: &mut Tape, plan: &StructPlan, cp: &CpPlan, i: usize, labels: &mut Vec<String>) -> Vec<Instr> {
+fn field_instrs(t: &mut Tape, plan: &StructPlan, cp: &CpPlan, i: usize, plain_names: bool, labels: &mut Vec<String>) -> Vec<Instr> {
     let own = &plan.fields[i].name;
     match &cp.roles[i] {
         Role::Ghost { owned, by_ref } => {
@@ -402,6 +426,10 @@ fn field_instrs(t: &mut Tape, plan: &StructPlan, cp: &CpPlan, i: usize, labels: 
                     vec![Instr::Ghost { name: "ghost_owned".into(), ded: None, action: Some(format!("{{ {} }}", o)) }, Instr::Ghost { name: "ghost_ref".into(), ded: None, action: Some(format!("{{ {} }}", r.unwrap_or(*o))) }]
                 }
             }
+        }
+        Role::GhostFor { owned_side, default, .. } => {
+            labels.push("role:ghost-single-ownership".into());
+            vec![Instr::Ghost { name: if *owned_side { "ghost_owned".into() } else { "ghost_ref".into() }, ded: None, action: Some(format!("{{ {} }}", default)) }]
         }
         Role::Mapped { d, from, into, cast, at_spelling } => {
             let dm = &cp.members[*d];
@@ -443,7 +471,7 @@ fn field_instrs(t: &mut Tape, plan: &StructPlan, cp: &CpPlan, i: usize, labels: 
             // fallible groups may use try_ names (exact level) or the infallible ones (fallback level)
             let pre = |t: &mut Tape, base: &str, kinds: &[usize]| -> String {
                 let fall = kinds.iter().any(|k| cp.cells[1][*k]) && !kinds.iter().any(|k| cp.cells[0][*k]);
-                if fall && t.coin() && !base.contains("existing") {
+                if fall && !plain_names && t.coin() && !base.contains("existing") {
                     match base {
                         "owned_into" => "owned_try_into".into(),
                         "ref_into" => "ref_try_into".into(),
@@ -479,7 +507,7 @@ fn field_instrs(t: &mut Tape, plan: &StructPlan, cp: &CpPlan, i: usize, labels: 
                     let n2 = pre(t, "ref_into", &[RI, RIE]);
                     out.extend(mk(n1, &into_args));
                     out.extend(mk(n2, &into_args));
-                    if (cp.has(OIE) || cp.has(RIE)) && t.coin() {
+                    if (cp.has(OIE) || cp.has(RIE)) && !plain_names && t.coin() {
                         out.extend(mk("into_existing".into(), &into_args));
                     }
                 }
@@ -551,23 +579,45 @@ fn ghosts_instrs(cp: &CpPlan, plan: &StructPlan, ded: Option<String>, labels: &m
     if !has_into_like {
         return vec![];
     }
-    let entries: Vec<(&DMember, i64, i64, Option<usize>)> = cp.members.iter().filter_map(|m| if let DSrc::Ghosts { owned, by_ref, reads } = &m.src { Some((m, *owned, *by_ref, *reads)) } else { None }).collect();
-    if entries.is_empty() {
-        return vec![];
-    }
-    labels.push("ghosts".into());
     let val = |c: i64, reads: Option<usize>| match reads {
         Some(fi) => format!("@.{} + {}", plan.fields[fi].name, c),
         None => format!("{}", c),
     };
-    if entries.iter().all(|e| e.1 == e.2) {
-        vec![Instr::Ghosts { name: "ghosts".into(), ded, entries: entries.iter().map(|(m, o, _, r)| GhostEntry { child_path: None, ident: m.name.clone(), action: val(*o, *r) }).collect() }]
+    let mut owned_entries: Vec<GhostEntry> = vec![];
+    let mut ref_entries: Vec<GhostEntry> = vec![];
+    for m in &cp.members {
+        match &m.src {
+            DSrc::Ghosts { owned, by_ref, reads } => {
+                owned_entries.push(GhostEntry { child_path: None, ident: m.name.clone(), action: val(*owned, *reads) });
+                ref_entries.push(GhostEntry { child_path: None, ident: m.name.clone(), action: val(*by_ref, *reads) });
+            }
+            DSrc::FromSOrGhosts { ghost_owned_side, supply, .. } => {
+                let e = GhostEntry { child_path: None, ident: m.name.clone(), action: format!("{}", supply) };
+                if *ghost_owned_side {
+                    owned_entries.push(e);
+                } else {
+                    ref_entries.push(e);
+                }
+            }
+            _ => {}
+        }
+    }
+    if owned_entries.is_empty() && ref_entries.is_empty() {
+        return vec![];
+    }
+    labels.push("ghosts".into());
+    if owned_entries == ref_entries {
+        vec![Instr::Ghosts { name: "ghosts".into(), ded, entries: owned_entries }]
     } else {
         labels.push("ghosts:owned/ref".into());
-        vec![
-            Instr::Ghosts { name: "ghosts_owned".into(), ded: ded.clone(), entries: entries.iter().map(|(m, o, _, r)| GhostEntry { child_path: None, ident: m.name.clone(), action: val(*o, *r) }).collect() },
-            Instr::Ghosts { name: "ghosts_ref".into(), ded, entries: entries.iter().map(|(m, _, b, r)| GhostEntry { child_path: None, ident: m.name.clone(), action: val(*b, *r) }).collect() },
-        ]
+        let mut out = vec![];
+        if !owned_entries.is_empty() {
+            out.push(Instr::Ghosts { name: "ghosts_owned".into(), ded: ded.clone(), entries: owned_entries });
+        }
+        if !ref_entries.is_empty() {
+            out.push(Instr::Ghosts { name: "ghosts_ref".into(), ded, entries: ref_entries });
+        }
+        out
     }
 }
 
@@ -585,6 +635,14 @@ fn ref_from(plan: &StructPlan, cp: &CpPlan) -> String {
     for (i, f) in plan.fields.iter().enumerate() {
         let v = match &cp.roles[i] {
             Role::Ghost { owned, by_ref } => format!("if owned {{ {} }} else {{ {} }}", owned.unwrap_or(0), by_ref.or(*owned).unwrap_or(0)),
+            Role::GhostFor { owned_side, default, d, .. } => {
+                let src = acc("value", &cp.members[*d].name);
+                if *owned_side {
+                    format!("if owned {{ {} }} else {{ {} }}", default, src)
+                } else {
+                    format!("if owned {{ {} }} else {{ {} }}", src, default)
+                }
+            }
             Role::Mapped { d, from, cast, .. } => {
                 let src = acc("value", &cp.members[*d].name);
                 if *cast {
@@ -616,6 +674,10 @@ fn into_value(plan: &StructPlan, cp: &CpPlan, m: &DMember) -> Option<String> {
             })
         }
         DSrc::Unmentioned => None,
+        DSrc::FromSOrGhosts { field, ghost_owned_side, supply } => {
+            let src = acc("s", &plan.fields[*field].name);
+            Some(if *ghost_owned_side { format!("(if owned {{ {} }} else {{ {} }})", supply, src) } else { format!("(if owned {{ {} }} else {{ {} }})", src, supply) })
+        }
     }
 }
 
@@ -661,7 +723,12 @@ pub fn render(t: &mut Tape, plan: &StructPlan, core_only: bool) -> E2Case {
     }
     let mut field_attr_texts: Vec<String> = vec![];
     for i in 0..plan.fields.len() {
-        let per_cp: Vec<Vec<Instr>> = plan.cps.iter().map(|cp| field_instrs(t, plan, cp, i, &mut labels)).collect();
+        // with several counterparts: either everything dedicated / shared (any spelling), or the mixed form
+        // "default instructions for one counterpart + dedicated instructions for the others" (README "Mapping to
+        // multiple structs"); in the mixed form every instruction uses the plain names so that dedicated and default
+        // instructions compete at the same precedence level (dedicated must win whatever the order)
+        let mixed = ncp > 1 && plan.cps.iter().all(|c| c.shape != DShape::BareTuple) && t.chance(1, 2);
+        let per_cp: Vec<Vec<Instr>> = plan.cps.iter().map(|cp| field_instrs(t, plan, cp, i, mixed, &mut labels)).collect();
         let mut instrs: Vec<Instr> = vec![];
         let all_equal = per_cp.iter().all(|x| x.iter().map(|i| i.render()).collect::<Vec<_>>() == per_cp[0].iter().map(|i| i.render()).collect::<Vec<_>>());
         if ncp == 1 {
@@ -676,6 +743,62 @@ pub fn render(t: &mut Tape, plan: &StructPlan, core_only: bool) -> E2Case {
             instrs.extend(per_cp[0].iter().cloned());
             if !per_cp[0].is_empty() {
                 labels.push("default-shared-by-counterparts".into());
+            }
+        } else if mixed && per_cp.iter().all(|l| l.iter().all(|i| matches!(i, Instr::Member(_)))) {
+            // counterpart `dflt` speaks through default instructions; every other counterpart gets dedicated instructions
+            // that cover all of its kinds (a plain role is written out as a rename to the member's own name)
+            let dflt = t.below(ncp);
+            let mut default_part: Vec<Instr> = per_cp[dflt].clone();
+            let mut dedicated_part: Vec<Instr> = vec![];
+            for (ci, list) in per_cp.iter().enumerate() {
+                if ci == dflt {
+                    continue;
+                }
+                let cp = &plan.cps[ci];
+                let list: Vec<Instr> = if list.is_empty() && !default_part.is_empty() {
+                    // explicit plain mapping: same member, no expression
+                    let own = match &cp.roles[i] {
+                        Role::Mapped { d, .. } => cp.members[*d].name.clone(),
+                        _ => plan.fields[i].name.clone(),
+                    };
+                    vec![Instr::Member(MemberInstr { name: "map".into(), ded: None, member: Some(own), action: None })]
+                } else {
+                    list.clone()
+                };
+                for ins in list {
+                    dedicated_part.push(ded_of(ins, &cp.ty_text()));
+                }
+            }
+            // one-sided instruction sets (e.g. only `from`) leave the other direction of a dedicated counterpart to the
+            // default instruction: complete them so that the dedicated counterpart never falls back to the default one
+            let covers = |list: &Vec<Instr>, ty: &str, from_side: bool| -> bool {
+                list.iter().any(|i| if let Instr::Member(m) = i { m.ded.as_deref() == Some(ty) && trait_name_cells(&m.name).map_or(false, |c| c.0.iter().any(|k| if from_side { *k == FO || *k == FR } else { *k == OI || *k == RI })) } else { false })
+            };
+            let default_has = |from_side: bool| default_part.iter().any(|i| if let Instr::Member(m) = i { trait_name_cells(&m.name).map_or(false, |c| c.0.iter().any(|k| if from_side { *k == FO || *k == FR } else { *k == OI || *k == RI })) } else { false });
+            for (ci, cp) in plan.cps.iter().enumerate() {
+                if ci == dflt {
+                    continue;
+                }
+                let ty = cp.ty_text();
+                for from_side in [true, false] {
+                    let needed = if from_side { cp.has(FO) || cp.has(FR) } else { cp.has(OI) || cp.has(RI) || cp.has(OIE) || cp.has(RIE) };
+                    if needed && default_has(from_side) && !covers(&dedicated_part, &ty, from_side) {
+                        let own = match &cp.roles[i] {
+                            Role::Mapped { d, .. } => cp.members[*d].name.clone(),
+                            _ => plan.fields[i].name.clone(),
+                        };
+                        dedicated_part.push(Instr::Member(MemberInstr { name: if from_side { "from".into() } else { "into".into() }, ded: Some(ty.clone()), member: Some(own), action: None }));
+                    }
+                }
+            }
+            labels.push("default+dedicated-mixed".into());
+            // default first (the order a "first match" implementation gets wrong), or random
+            if t.chance(2, 3) {
+                instrs.append(&mut default_part);
+                instrs.append(&mut dedicated_part);
+            } else {
+                instrs.append(&mut dedicated_part);
+                instrs.append(&mut default_part);
             }
         } else {
             for (ci, list) in per_cp.iter().enumerate() {
@@ -777,7 +900,7 @@ pub fn render(t: &mut Tape, plan: &StructPlan, core_only: bool) -> E2Case {
             let mut interior = false;
             for r in &cp.roles {
                 match r {
-                    Role::Ghost { .. } => seen_ghost = true,
+                    Role::Ghost { .. } | Role::GhostFor { .. } => seen_ghost = true,
                     Role::Mapped { .. } => {
                         if seen_ghost {
                             interior = true
